@@ -91,6 +91,12 @@ def cases(ctx):
     csrcs.append("let c = 0;\nout: while c < 2000 {\n  c = c + 1;\n  let d = 0; L: loop { d = d + 1; if d > 1 { continue out; } }\n}\nc\n")
     cl = lang_lines(ctx, csrcs, op="core")
     out += [Case(l, ("core-loops",), extra={"src": s}) for l, s in zip(cl, csrcs)]
+    # calls (lean/P2sh/Core/Fn; theorems call_pushes_one, call_statement_balanced): a call leaves one value, also after a
+    # `return` from inside nested loops; calls in loops run in constant stack (sp after the run is 0)
+    fsrcs = [s for s in (c02.core_fn_program(rng, typed=(k % 2 == 0)) for k in range(ctx.scale(600, 20000))) if "return" in s] + c02.CORE_FN_FIXED
+    fsrcs.append("fn f(n) { let i = 0; while true { loop { if i > n { return i; } i = i + 1; } } }\nlet c = 0;\nwhile c < 1500 {\n  c = c + 1;\n  f(2);\n  let q = 1 + f(1);\n}\nc\n")
+    fl = lang_lines(ctx, fsrcs, op="core")
+    out += [Case(l, ("core-calls",), extra={"src": s}) for l, s in zip(fl, fsrcs)]
     return out
 
 
